@@ -318,6 +318,75 @@ JudgePair(tr, ev) ==
   }
 
 (***************************************************************************)
+(* Low level emitters (C09): comment, wash, decontaminate, flush, commit,  *)
+(* set_diti, aspirate_well, dispense_well, reagent_distribution.           *)
+(* Numbers are logged as [cls, v] (cls "float" = the non-integer v + 0.5), *)
+(* volumes as [cls, m, c]: m thousandths of a microlitre (rounded to two   *)
+(* decimals in the record), or c hundredths for values beyond 32 bits.     *)
+(***************************************************************************)
+NatArg(n) == n.cls = "int" /\ n.v >= 0
+RArgsValid(T, a) ==
+  /\ TextOK(a.srack, TRUE) /\ TextOK(a.drack, TRUE) /\ TextOK(a.sid, TRUE) /\ TextOK(a.stype, TRUE)
+  /\ TextOK(a.did, TRUE) /\ TextOK(a.dtype, TRUE) /\ TextOK(a.lc, FALSE)
+  /\ a.s1.cls = "int" /\ a.s1.v >= 1 /\ a.s2.cls = "int" /\ a.s2.v >= 1
+  /\ a.d1.cls = "int" /\ a.d1.v >= 1 /\ a.d2.cls = "int" /\ a.d2.v >= 1
+  /\ a.reuse.cls = "int" /\ a.reuse.v >= 1 /\ a.md.cls = "int" /\ a.md.v >= 1
+  /\ a.vol.cls = "num" /\ (IF a.vol.m >= 0 THEN (a.vol.m + 5) \div 10 ELSE a.vol.c) >= 0
+  /\ (IF a.vol.m >= 0 THEN (a.vol.m + 5) \div 10 ELSE a.vol.c) <= MaxRecordVolumeCents
+  /\ (IF a.vol.m >= 0 THEN (a.vol.m + 5) \div 10 ELSE a.vol.c) <= T.wlmaxc
+  /\ a.dir \in {"left_to_right", "right_to_left"}
+  /\ \A i \in 1..Len(a.excl) : a.excl[i] >= a.d1.v /\ a.excl[i] <= a.d2.v
+PosArg(n) == n.cls = "int" /\ n.v >= 1
+VolCents(v) == IF v.m >= 0 THEN (v.m + 5) \div 10 ELSE v.c
+VolArgValid(T, v) == v.cls = "num" /\ VolCents(v) >= 0 /\ VolCents(v) <= MaxRecordVolumeCents /\ VolCents(v) <= T.wlmaxc
+LastIsBreak == wl = <<>> \/ wl[Len(wl)].t = "B"
+
+JudgeEmit(tr, T, ev) ==
+  LET a == ev.a  fn == a.fn  ok == ev.out = "ok"  n == Len(ev.recs)
+      r1 == ev.recs[1]
+      none == ev.recs = <<>>
+  IN {
+    Cl("C09.comment.ok", fn = "comment" /\ ~a.sep,
+       ok /\ [i \in 1..n |-> ev.recs[i].t] = [i \in 1..n |-> "C"] /\ CommentTexts(ev.recs) = CommentRecords(a.lines)),
+    Cl("C09.comment.sep", fn = "comment" /\ a.sep, ~ok /\ none),
+    Cl("C09.wash.ok", fn = "wash" /\ ~T.diti /\ a.n.cls = "int" /\ a.n.v \in 1..4,
+       ok /\ n = 1 /\ r1.t = "W" /\ r1.scheme = a.n.v),
+    Cl("C09.wash.diti", fn = "wash" /\ T.diti /\ a.n.cls = "int" /\ a.n.v \in 1..4,
+       ok /\ n = 1 /\ r1.t = "W" /\ r1.scheme = 0),
+    Cl("C09.wash.bad", fn = "wash" /\ ~T.diti /\ ~(a.n.cls = "int" /\ a.n.v \in 1..4), ~ok /\ none),
+    Cl("C09.decon", fn = "decontaminate", IF T.diti THEN ~ok /\ none ELSE ok /\ n = 1 /\ r1.t = "WD"),
+    Cl("C09.flush", fn = "flush", ok /\ n = 1 /\ r1.t = "F"),
+    Cl("C09.commit", fn = "commit", ok /\ n = 1 /\ r1.t = "B"),
+    Cl("C09.setditi.ok", fn = "set_diti" /\ NatArg(a.n) /\ LastIsBreak, ok /\ n = 1 /\ r1.t = "S" /\ r1.idx = a.n.v),
+    Cl("C09.setditi.where", fn = "set_diti" /\ ~LastIsBreak, ~ok /\ none),
+    Cl("C09.setditi.bad", fn = "set_diti" /\ ~NatArg(a.n), ~ok /\ none),
+    Cl("C09.well.ok", fn \in {"aspirate_well", "dispense_well"} /\ TextOK(a.rack, TRUE) /\ PosArg(a.pos) /\ VolArgValid(T, a.vol) /\ KwValid(a.kw),
+       LET kv == KwValues(a.kw) IN
+       /\ ok /\ n = 1 /\ r1.t = (IF fn = "aspirate_well" THEN "A" ELSE "D")
+       /\ r1.rack = a.rack.s /\ r1.pos = a.pos.v /\ r1.cents = VolCents(a.vol)
+       /\ r1.lc = kv.lc /\ r1.tip = kv.tip /\ r1.rackid = kv.rackid /\ r1.racktype = kv.racktype
+       /\ r1.tube = kv.tube /\ r1.frt = kv.frt /\ r1.tiptype = ""),
+    Cl("C09.well.bad", fn \in {"aspirate_well", "dispense_well"}
+                       /\ ~(TextOK(a.rack, TRUE) /\ NatArg(a.pos) /\ VolArgValid(T, a.vol) /\ KwValid(a.kw)),
+       ~ok /\ none),
+    Cl("C09.r.ok", fn = "reagent_distribution" /\ RArgsValid(T, a),
+       /\ ok /\ n = 1 /\ r1.t = "R"
+       /\ r1.srack = a.srack.s /\ r1.drack = a.drack.s /\ r1.sid = a.sid.s /\ r1.stype = a.stype.s
+       /\ r1.did = a.did.s /\ r1.dtype = a.dtype.s /\ r1.lc = a.lc.s
+       /\ r1.s1 = a.s1.v /\ r1.s2 = a.s2.v /\ r1.d1 = a.d1.v /\ r1.d2 = a.d2.v
+       /\ r1.volc = VolCents(a.vol) /\ r1.reuse = a.reuse.v
+       /\ r1.dir = (IF a.dir = "left_to_right" THEN 0 ELSE 1)
+       /\ Range(r1.excl) = Range(a.excl) /\ Len(r1.excl) = Cardinality(Range(a.excl))
+       /\ \A i \in 1..(Len(r1.excl) - 1) : r1.excl[i] < r1.excl[i + 1]
+       /\ (VolCents(a.vol) > 0 => (r1.md >= 1 /\ r1.md <= a.md.v /\ r1.md * VolCents(a.vol) <= T.wlmaxc
+                                   /\ (a.md.v * VolCents(a.vol) <= T.wlmaxc => r1.md = a.md.v)
+                                   /\ (a.md.v * VolCents(a.vol) > T.wlmaxc => (r1.md + 1) * VolCents(a.vol) > T.wlmaxc)))
+       /\ (VolCents(a.vol) = 0 => r1.md = a.md.v)),
+    Cl("C09.r.bad", fn = "reagent_distribution" /\ ~RArgsValid(T, a), ~ok /\ none),
+    Cl("C09.emit.one", ok /\ fn # "comment", n = 1)
+  }
+
+(***************************************************************************)
 (* Saving (C17): save(path), leaving the with-block, entering it, str().   *)
 (***************************************************************************)
 CpLines(recs) == [i \in 1..Len(recs) |-> recs[i].cp]
@@ -344,6 +413,7 @@ JudgeEvent(tr, T, ev) ==
           [] ev.op = "transfer" -> JudgeTransfer(tr, T, ev)
           [] ev.op = "distribute" -> JudgeDistribute(tr, T, ev)
           [] ev.op \in {"save", "exit", "enter", "str"} -> JudgeFile(tr, T, ev)
+          [] ev.op = "emit" -> JudgeEmit(tr, T, ev)
           [] OTHER -> {Cl("machinery.unknown_op", TRUE, FALSE)})
   \cup (IF tr.pair THEN JudgePair(tr, ev) ELSE {})
 
